@@ -1,5 +1,9 @@
 """C19 tie: run the REAL pipeline stages in a child interpreter under strace, parse the
 log into the operation alphabet of coq/Model/FsModel.v, and snapshot directories.
+The alphabet has the effects (OpenR/OpenW/Create/Mkdir/Unlink/Rmdir/Rename), the listing of
+a directory (ListDir) and every other OBSERVATION of the file system (`Stat p answer`: stat,
+lstat, newfstatat, statx, access, faccessat, readlink; opening a directory; every call that
+failed with an errno that tells whether the path exists) -- see to_ops.
 
 Parent side:   run_jobs(jobs, workdir) -> list of per-run records (ops, snapshots, results)
 Child side:    python -m harness.fstrace <jobs.json>   (started under strace by run_jobs)
@@ -23,7 +27,10 @@ import sys
 import time
 
 TRACE_SET = ('openat,open,creat,mkdir,mkdirat,unlink,unlinkat,rmdir,rename,renameat,'
-             'renameat2,getdents64,chdir')
+             'renameat2,getdents64,chdir,'
+             # observations without effect (FsModel `Stat p r`): what exists()/is_file()/is_dir()/os.stat/os.access/
+             # os.path.realpath make
+             'stat,lstat,newfstatat,statx,access,faccessat,faccessat2,readlink,readlinkat')
 MARK = '/ctmverif_fs_marker'
 PY = '/venv/bin/python'
 VERIF = pathlib.Path(__file__).resolve().parent.parent
@@ -82,6 +89,15 @@ PATTERNS = {
     'renameat': re.compile(r'^renameat\(' + _FD + r', ' + _STR + r', ' + _FD + r', ' + _STR + r'\)' + _RET),
     'renameat2': re.compile(r'^renameat2\(' + _FD + r', ' + _STR + r', ' + _FD + r', ' + _STR + r', [A-Z_|0-9a-fx]+\)' + _RET),
     'chdir': re.compile(r'^chdir\(' + _STR + r'\)' + _RET),
+    'stat': re.compile(r'^stat\(' + _STR + r', (.*)\)' + _RET),
+    'lstat': re.compile(r'^lstat\(' + _STR + r', (.*)\)' + _RET),
+    'newfstatat': re.compile(r'^newfstatat\(' + _FD + r', ' + _STR + r', (.*), ([A-Z_|0-9a-fx]+)\)' + _RET),
+    'statx': re.compile(r'^statx\(' + _FD + r', ' + _STR + r', ([A-Z_|0-9a-fx]+), [A-Z_|0-9a-fx]+, (.*)\)' + _RET),
+    'access': re.compile(r'^access\(' + _STR + r', [A-Z_|0-9a-fx]+\)' + _RET),
+    'faccessat': re.compile(r'^faccessat\(' + _FD + r', ' + _STR + r', [A-Z_|0-9a-fx]+(?:, [A-Z_|0-9a-fx]+)?\)' + _RET),
+    'faccessat2': re.compile(r'^faccessat2\(' + _FD + r', ' + _STR + r', [A-Z_|0-9a-fx]+, [A-Z_|0-9a-fx]+\)' + _RET),
+    'readlink': re.compile(r'^readlink\(' + _STR + r', (.*)\)' + _RET),
+    'readlinkat': re.compile(r'^readlinkat\(' + _FD + r', ' + _STR + r', (.*)\)' + _RET),
     'getdents64': re.compile(r'^getdents64\(' + r'-?\d+(?:<((?:[^>\\]|\\.)*)>)?' + r',\s*.*\)' + _RET),
 }
 
@@ -102,6 +118,14 @@ def _abs(base, p, cwd):
 
 class ParseError(Exception):
     pass
+
+
+def _kind_of(struct_text):
+    """'file' | 'dir' | 'other' from the st_mode / stx_mode strace prints; None when the call failed."""
+    m = re.search(r'stx?_mode=(S_IF[A-Z]+)', struct_text or '')
+    if not m:
+        return None
+    return {'S_IFREG': 'file', 'S_IFDIR': 'dir'}.get(m.group(1), 'other')
 
 
 def parse_log(path, cwd):
@@ -168,10 +192,20 @@ def parse_log(path, cwd):
             elif name in ('renameat', 'renameat2'):
                 ev.update(path=_abs(g[0], g[1], cw), path2=_abs(g[2], g[3], cw), ret=int(g[4]))
                 ev['sys'] = 'rename'
+            elif name in ('stat', 'lstat', 'access', 'readlink'):
+                ev.update(path=_abs(None, g[0], cw), ret=int(g[-2]), sys='stat',
+                          kind=_kind_of(g[1]) if name in ('stat', 'lstat') else None)
+            elif name in ('newfstatat', 'statx', 'faccessat', 'faccessat2', 'readlinkat'):
+                if g[1] == '':
+                    # AT_EMPTY_PATH: fstat of a descriptor that is already open -- the open is the observation
+                    continue
+                st = g[2] if name == 'newfstatat' else (g[3] if name == 'statx' else None)
+                ev.update(path=_abs(g[0], g[1], cw), ret=int(g[-2]), sys='stat', kind=_kind_of(st) if st else None)
             elif name == 'getdents64':
                 if g[0] is None:
                     raise ParseError(f'getdents64 without a decoded descriptor: {raw!r}')
                 ev.update(path=os.path.normpath(_unq(g[0])), ret=int(g[1]))
+            ev['err'] = g[-1]
             events.append(ev)
     return events
 
@@ -206,14 +240,103 @@ def split_runs(events):
     return runs
 
 
+ABSENT_ERRNO = ('ENOENT', 'ENOTDIR')
+
+
+def failed_probe(ev):
+    """What a FAILED call on path p has told the process about p: 'absent' | 'exists' | 'dir' | None (nothing that
+    the model distinguishes / unknown -- counted in notes['failed_unmapped'], which the check refuses)."""
+    s, err = ev['sys'], ev.get('err')
+    if err in ABSENT_ERRNO:
+        return 'absent'
+    if err == 'EEXIST' and s in ('mkdir', 'mkdirat', 'openat', 'open', 'creat'):
+        return 'exists'
+    if err == 'EISDIR':
+        return 'dir'
+    if err == 'EINVAL' and s == 'stat':
+        return 'exists'                  # readlink of something that is not a symbolic link
+    if err == 'ENOTEMPTY' and s == 'rmdir':
+        return 'dir'
+    return None
+
+
+def causal_order(ops, notes):
+    """strace -f writes a line when IT handles the exit of a system call; for calls of DIFFERENT processes that
+    finish within the same instant this need not be the order in which the kernel performed them (orphaned workers
+    still reading while run_mapping's `finally` removes the files).  A call that SUCCEEDED on p, or was told that p
+    exists, cannot have happened after p was removed and before anybody made p again: when the log shows such a call
+    of one process behind the removal of p by another process, it is moved in front of that removal."""
+    notes['reordered'] = 0
+    out = []
+    for o in ops:
+        proves = (o['k'] in ('OpenR', 'OpenW', 'ListDir')
+                  or (o['k'] == 'Stat' and o['r'] != 'absent'))
+        if proves:
+            j = None
+            for i in range(len(out) - 1, -1, -1):
+                x = out[i]
+                made = (x['k'] in ('Create', 'Mkdir') and x['p'] == o['p']) or (x['k'] == 'Rename' and x.get('q') == o['p'])
+                if made:
+                    break
+                if x['k'] in ('Unlink', 'Rmdir', 'Rename') and x['p'] == o['p']:
+                    if x['pid'] != o['pid'] and abs(o['t'] - x['t']) < 0.05:
+                        j = i
+                    break
+            if j is not None:
+                out.insert(j, o)
+                notes['reordered'] += 1
+                continue
+        out.append(o)
+    # the mirror image: a call of one process that was told p is ABSENT, logged while -- in the order of the log -- p
+    # exists, just in front of the removal of p by another process: it happened behind that removal
+    res, known, deferred = [], {}, []          # deferred: (index in `out` of the removal to wait for, op)
+    for i, o in enumerate(out):
+        if o['k'] == 'Stat' and o['r'] == 'absent' and known.get(o['p']) is True:
+            j = next((k for k in range(i + 1, len(out))
+                      if out[k]['k'] in ('Unlink', 'Rmdir', 'Rename') and out[k]['p'] == o['p']), None)
+            if j is not None and out[j]['pid'] != o['pid'] and abs(out[j]['t'] - o['t']) < 0.05 and \
+                    not any((x['k'] in ('Create', 'Mkdir') and x['p'] == o['p']) or x.get('q') == o['p'] for x in out[i + 1:j]):
+                deferred.append((j, o))
+                notes['reordered'] += 1
+                continue
+        res.append(o)
+        if o['k'] in ('Create', 'Mkdir', 'OpenR', 'OpenW', 'ListDir') or (o['k'] == 'Stat' and o['r'] != 'absent'):
+            known[o['p']] = True
+        elif o['k'] in ('Unlink', 'Rmdir'):
+            known[o['p']] = False
+        elif o['k'] == 'Rename':
+            known[o['p']] = False
+            known[o['q']] = True
+        elif o['k'] == 'Stat':
+            known[o['p']] = False
+        for j, d in [x for x in deferred if x[0] == i]:
+            res.append(d)
+        deferred = [x for x in deferred if x[0] != i]
+    return res
+
+
 def to_ops(events, roots):
-    """Successful operations on paths below the sandbox roots, in the alphabet of FsModel.
-    -> (ops, notes).  op = (kind, path[, path2 | trunc], t, pid)."""
-    ops, notes = [], {'h5_probe_dropped': 0, 'dir_opens': 0, 'failed': 0}
+    """Operations on paths below the sandbox roots, in the alphabet of FsModel.
+    -> (ops, notes).  op = (kind, path[, path2 | trunc | r], t, pid).
+    Besides the successful effects, every OBSERVATION is an operation `Stat p r` (r: 'absent' | 'file' | 'dir' |
+    'exists'): stat / lstat / newfstatat / statx / access / faccessat / readlink (what exists(), is_file(), is_dir(),
+    realpath() make), opening a directory (O_DIRECTORY, O_PATH), and every FAILED call (ENOENT: the path is absent;
+    EEXIST: it exists ...).  Listing a directory (getdents64) is `ListDir`."""
+    ops, notes = [], {'h5_probe_dropped': 0, 'dir_opens': 0, 'failed': 0, 'stats': 0, 'failed_unmapped': []}
     for ev in events:
         if ev['ret'] < 0:
+            if ev['sys'] == 'rename':
+                if below(ev['path'], roots) or below(ev['path2'], roots):
+                    notes['failed_unmapped'].append(f"rename {ev['path']} {ev['path2']} {ev.get('err')}")
+                continue
             if below(ev.get('path', ''), roots):
                 notes['failed'] += 1
+                r = failed_probe(ev)
+                if r is None:
+                    notes['failed_unmapped'].append(f"{ev['sys']} {ev['path']} {ev.get('err')}")
+                else:
+                    ops.append({'k': 'Stat', 'p': ev['path'], 'r': r, 't': ev['t'], 'pid': ev['pid'],
+                                'via': ev['sys'] + ':' + str(ev.get('err'))})
             continue
         p = ev['path']
         s = ev['sys']
@@ -224,10 +347,15 @@ def to_ops(events, roots):
         if not below(p, roots):
             continue
         base = {'p': p, 't': ev['t'], 'pid': ev['pid']}
-        if s in ('openat', 'open', 'creat'):
+        if s == 'stat':
+            notes['stats'] += 1
+            k = ev.get('kind')
+            ops.append(dict(base, k='Stat', r=k if k in ('file', 'dir') else 'exists', via='stat'))
+        elif s in ('openat', 'open', 'creat'):
             fl = ev['flags']
             if 'O_DIRECTORY' in fl or ('O_PATH' in fl):
                 notes['dir_opens'] += 1
+                ops.append(dict(base, k='Stat', r='dir' if 'O_DIRECTORY' in fl else 'exists', via='open-dir'))
                 continue
             wr = 'O_WRONLY' in fl or 'O_RDWR' in fl
             if not wr:
@@ -251,6 +379,7 @@ def to_ops(events, roots):
         elif s == 'getdents64':
             if ev['ret'] > 0:
                 ops.append(dict(base, k='ListDir'))
+    ops = causal_order(ops, notes)
     # HDF5's H5Fcreate(H5F_ACC_TRUNC) first opens an existing file O_RDWR (to find out whether
     # this process already has it open), closes it and then opens it O_RDWR|O_CREAT|O_TRUNC.
     # The probe is dropped when the very next operation of that process on that path is the
@@ -258,7 +387,7 @@ def to_ops(events, roots):
     out = []
     for i, o in enumerate(ops):
         if o['k'] == 'OpenW' and not o['trunc']:
-            nxt = next((x for x in ops[i + 1:] if x['pid'] == o['pid'] and x['p'] == o['p']), None)
+            nxt = next((x for x in ops[i + 1:] if x['pid'] == o['pid'] and x['p'] == o['p'] and x['k'] != 'Stat'), None)
             if nxt is not None and nxt['k'] == 'Create' and nxt['trunc']:
                 notes['h5_probe_dropped'] += 1
                 continue
